@@ -98,6 +98,12 @@ impl<'a, T> Iterator for BufferedIter<'a, T> {
             None
         }
     }
+
+    #[inline]
+    fn size_hint(&self) -> (usize, Option<usize>) {
+        let len = self.initial_len - self.current_idx;
+        (len, Some(len))
+    }
 }
 
 impl<'a, T> ExactSizeIterator for BufferedIter<'a, T> {
